@@ -4,9 +4,9 @@
    dictionaries, character classes and regular-expression texts come from Gen.TokenTables / Gen.Elements, regenerated
    from the source on every run. *)
 From Coq Require Import ZArith List String Ascii Bool.
-From Model Require Import PyBase Graph Valence Tokenize Parser Reader SmilesAst Recheck.
+From Model Require Import PyBase Graph Valence Tokenize Parser Reader SmilesAst SmilesGraph Recheck.
 From Gen Require Import TokenTables.
-From Proofs Require Import TokenizeProofs ParserProofs ReaderProofs ReaderExt DenoteProofs RecheckProofs.
+From Proofs Require Import TokenizeProofs ParserProofs ReaderProofs ReaderExt ReaderExt2 DenoteProofs GraphProofs RecheckProofs.
 Import ListNotations.
 Open Scope Z_scope.
 
@@ -219,7 +219,7 @@ Print Assumptions C03_mapping_numbers_reaction.
 
 (* remap=True = the remap=False numbering followed, number by number, by one function sq that is strictly monotone on the numbers
    in use (so all of the above - distinctness, disjointness, correspondence of mapped atoms between the sides - is preserved),
-   keeps them >= 1 and never increases one.  (Not proved: that sq leaves no gap, i.e. the result is exactly 1..N; tied.) *)
+   keeps them >= 1 and never increases one.  (That sq leaves no gap - the result is exactly 1..N - is C03_squeeze_gap_free below.) *)
 Theorem C03_mapping_numbers_reaction_remap : forall ignore rs ps gs mR' mP' mG',
   pp_reaction true ignore rs ps gs = Ok (mR', mP', mG') ->
   exists mR mP mG sq,
@@ -304,3 +304,46 @@ Theorem C03_recheck_examples :
     "M 1={C|-|-|0|-|-}[2:4.6:4],2={C|-|-|0|-|-}[1:4.3:4],3={C|-|-|0|-|-}[2:4.4:4],4={C|-|-|0|0|-}[3:4.5:4],5={C|-|-|0|-|-}[4:4.6:4],6={C|-|-|0|-|-}[5:4.1:4] # 1:1,2:1,3:1,4:0*r,5:1,6:1"%string.
 Proof. exact recheck_examples. Qed.
 Print Assumptions C03_recheck_examples.
+
+(* ---- read_spell_denote against an INDEPENDENT definition: Model.SmilesGraph reads the graph off the tree without the machine
+   (no step, no parser state): preorder layout by tree recursion (every atom knows its parent in the tree, every ring digit its
+   atom), parent-child bonds, ring bonds by the separate matching function `opener` (occurrences of a digit pair up 1st-2nd,
+   3rd-4th, ...), bond values by `choice` / `ring_val`.  The parser returns on the spelling of a well-formed tree exactly these
+   atoms and these bonds (same order), and rejects the spelling exactly when the tree has no graph. *)
+Theorem C03_denote_is_graph : forall strong t, wf2 t = true ->
+  match denote strong t with
+  | Ok p => denote_graph strong t = Some (mkDG (p_atoms p) (p_bonds p))
+  | Err _ => denote_graph strong t = None
+  end.
+Proof. exact denote_is_graph. Qed.
+Print Assumptions C03_denote_is_graph.
+
+Theorem C03_read_spell_graph : forall strong t, wf2 t = true ->
+  match parse (spell t) strong with
+  | Ok p => denote_graph strong t = Some (mkDG (p_atoms p) (p_bonds p))
+  | Err _ => denote_graph strong t = None
+  end.
+Proof. exact read_spell_graph. Qed.
+Print Assumptions C03_read_spell_graph.
+
+Theorem C03_denote_graph_example :
+  let C := simple_atom "C" in
+  let t := Node 0 C [(None, 1)] [(Some (1, PInt 2), Node 0 (simple_atom "O") [] []);
+                                 (None, Node 8 C [] [(None, Node 8 C [(Some (9, PBool true), 1)] [(Some (4, PNone), Node 0 C [] [])])])] in
+  wf2 t = true /\
+  denote_graph true t = Some (mkDG [C; simple_atom "O"; C; C; C] [(1, 0, PInt 2); (2, 0, PInt 1); (3, 2, PInt 4); (3, 0, PInt 1)]) /\
+  denote_graph true (Node 0 C [(None, 1)] []) = None /\
+  denote_graph true (Node 0 C [(Some (1, PInt 2), 1)] [(None, Node 0 C [(None, 1)] [])]) = None /\
+  denote_graph false (Node 0 C [(Some (1, PInt 2), 1)] [(None, Node 0 C [(None, 1)] [])]) = Some (mkDG [C; C] [(1, 0, PInt 1); (1, 0, PInt 2)]).
+Proof. exact denote_graph_example. Qed.
+Print Assumptions C03_denote_graph_example.
+
+(* ---- gap-freeness of the remap=True squeeze: with atom maps >= 0 (what the reader produces) the numbers returned by
+   postprocess_parsed_reaction(remap=True) are exactly 1..N: all >= 1, and every positive number below a number in use is in use *)
+Theorem C03_squeeze_gap_free : forall ignore rs ps gs mR' mP' mG',
+  (forall m, In m (List.concat rs ++ List.concat ps ++ List.concat gs) -> 0 <= m) ->
+  pp_reaction true ignore rs ps gs = Ok (mR', mP', mG') ->
+  let F := List.concat mR' ++ List.concat mP' ++ List.concat mG' in
+  (forall v, In v F -> 1 <= v) /\ forall v k, In v F -> 1 <= k <= v -> In k F.
+Proof. exact squeeze_gap_free. Qed.
+Print Assumptions C03_squeeze_gap_free.
